@@ -190,6 +190,8 @@ func (e *Env) storeIndex(parent Val, idx Val, v Val) *Err {
 				nv = reflect.ValueOf(v.S)
 			case v.K == KBool && et.Kind() == reflect.Bool:
 				nv = reflect.ValueOf(v.B)
+			case v.K == KGo && et.Kind() == reflect.Ptr && v.R.IsValid() && v.R.Kind() == reflect.Ptr && !v.R.IsNil() && v.R.Type() == et:
+				nv = v.R // an object replaced as a whole
 			default:
 				if isNum(v) && (et.Kind() >= reflect.Int && et.Kind() <= reflect.Float64) {
 					return errf(EUndefined, "map entry written with a value of another numeric kind")
@@ -282,6 +284,12 @@ func setTyped(dst reflect.Value, v Val) *Err {
 				return errf(EKind, "time expected")
 			}
 			dst.Set(reflect.ValueOf(v.T))
+			return nil
+		}
+	case reflect.Ptr:
+		// an object replaced as a whole (F.Sub = F.Mk(3)): the pointer is stored as is
+		if v.K == KGo && v.R.IsValid() && v.R.Kind() == reflect.Ptr && !v.R.IsNil() && v.R.Type() == dst.Type() {
+			dst.Set(v.R)
 			return nil
 		}
 	}
